@@ -184,6 +184,10 @@ def report(ctx, bad):
         xs.sort(key=lambda x: (len(x[0]["recs"]), 0 if all(r["cls"] == "valid" for r in x[0]["recs"]) else 1, len(x[1].get("csv", ""))))
         for s, r in xs[:PER_SIGNATURE]:
             payload = dict(kind="csvimport-replay", signature=sig, failures_with_this_signature=len(xs), scenario=show(s),
+                           detail=["%s: csv %r (%s, src-cols %s -> %s of %s): expected %s %s, observed %s %s" % (
+                               sig, r.get("csv"), s["config"], s["src"], ["c%d" % d for d in s["dst"]], s["schema"],
+                               s["exp"]["outcomes"], [[v["v"] if v["t"] != "n" else None for v in row] for row in s["exp"]["table"]],
+                               r["outcomes"], [[v["v"] if v["t"] != "n" else None for v in row] for row in r["table"]])],
                            scenario_raw={k: s[k] for k in ("schema", "src", "dst", "sep", "recs", "exp", "taint", "config")},
                            naive=s.get("naive"), csv_text=r.get("csv"), renderings=r["m"], expected=s["exp"],
                            observed=dict(outcomes=r["outcomes"], table=r["table"], errors=r.get("errors"),
